@@ -484,6 +484,12 @@ let register (reg : string -> (Sx.t list -> Sx.t) -> unit) : unit =
       | [tok; tt; ts] ->
         wr_bool (GenericProvider.generic_validate (rd_str tok) { GenericProvider.rp_transport_ok = rd_bool tt; rp_status = rd_z ts })
       | _ -> raise (Bad "generic_validate arity"));
+  (* ---- admission at login: validator on the e-mail and the provider's group rule ---- *)
+  reg "login_admits" (function
+      | [domains; file; allowed; email; groups] ->
+        wr_bool (Authz.login_admits (Authz.email_valid (rd_list rd_str domains) (rd_list rd_str file)) (rd_list rd_str allowed)
+                   { Authz.a_email = rd_str email; a_groups = rd_list rd_str groups })
+      | _ -> raise (Bad "login_admits arity"));
   (* ---- which handler answers a liveness / readiness probe ---- *)
   reg "probe" (function
       | [pp; rp; pu; gcp; ok; path; ua] ->
